@@ -885,6 +885,15 @@ def body_builtin(case, ctx):
     op_rlp(F, m, m.verts[-1], False, ctx)
     op_rename(F, m, {l: l.swapcase() + "'" for l in m.labels()}, False, ctx)
     check_views(F, m, ctx, where="builtin after all operations")
+    # in-place operations on the loaded automaton (relabelling is in place by default, pruning
+    # on request) edit THAT automaton: loading the same file again gives the file's automaton
+    ren = {l: l.swapcase() + "'" for l in m.labels()}
+    F.rename_generators(dict(ren))
+    F.recurrent(inplace=True)
+    F2 = fsa_mod.load_builtin(case["name"])
+    F2.start_vertices = list(F2.start_vertices)
+    check_views(F2, m, ctx, where="load_builtin again, after in-place operations on the first "
+                                  "copy")
 
 
 _walk = Law("walk_queries_agree", walk_case(), body_walk, nt_basic, quick=250, thorough=2000,
